@@ -873,3 +873,11 @@ mod test {
         }
     }
 }
+
+/// Verification hook: with feature `verif-hook` the test binary of this crate
+/// includes the harness file named by the `SYLVIA_VERIF_HARNESS` environment
+/// variable (at build time), giving it access to the private `*_impl` functions.
+#[cfg(all(test, feature = "verif-hook"))]
+mod verif_hook {
+    include!(env!("SYLVIA_VERIF_HARNESS"));
+}
